@@ -118,4 +118,12 @@ PROPS = {
         "outside_claim": "recursive proof compression (ProofBatch::generate, BatchToVerify::verify, Lagrange tables, SHA-256 Fiat-Shamir challenges), segment packing into 256-bit blocks and the 256-bit block conversions (bitvec load/store on 256-bit arrays: > 500 s per operation under CBMC), batching across steps - hence NOT the end-to-end 'accepted iff consistent'",
         "assumptions": ["logging (tracing) and alloc::fmt::format are stubbed out"],
     },
+    "C15": {
+        "design_ref": "DESIGN.md §3 C15",
+        "functions_encoded": ["seq_join::seq_join", "seq_join::local::SequentialFutures::{new,poll_next}", "seq_join::local::ActiveItem::{check_ready,take}"],
+        "bounds": "N = 2 tasks with window 1 and 2 (4 polls), N = 3 with window 2 (5 polls); completion order chosen by the solver before every poll (all monotone readiness schedules); source stream always ready",
+        "outside_claim": "N > 3 (quick) / N > 4 (thorough), source streams that return Pending, seq_try_join_all / parallel_join, the multi-threaded implementation (feature-gated, unsafe, real threads)",
+        "assumptions": ["tasks are harness futures whose readiness is a solver-controlled flag; wakers are no-ops (the harness polls unconditionally)",
+                        "logging (tracing) and alloc::fmt::format are stubbed out"],
+    },
 }
